@@ -17,7 +17,7 @@ ENG = os.path.join(VERIF, 'engine')
 HAR = os.path.join(VERIF, 'harness')
 sys.path.insert(0, HAR)
 
-CLANG_FLAGS = ['-std=c++17', '-O1', '-fno-vectorize', '-fno-slp-vectorize', '-fno-unroll-loops', '-mllvm', '-inline-threshold=100000', '-mllvm', '-simplifycfg-sink-common=false',
+CLANG_FLAGS = ['-std=c++17', '-O1', '-fno-vectorize', '-fno-slp-vectorize', '-fno-unroll-loops', '-mllvm', '-simplifycfg-sink-common=false',
                '-Wno-everything', '-I' + os.path.join(REPO, 'include'), '-I' + ENG, '-I' + HAR]
 
 
@@ -25,13 +25,13 @@ class Unit:
     """one wrapper TU + defines -> one generated C file; `entries` = harness functions (VF_HARNESS names) to decide"""
     def __init__(s, prop, tu, name=None, defines=None, entries=None, narrow=32, unwind=6, unwindset=None, objbits=None, timeout=600,
                  tier='quick', exceptions=False, stubs=(), heap=512, slots=1, backend='cadical', cflags=(), rnd=(-3, 9), nvec=300,
-                 kf=None, per_entry=None, skip_entries=(), native_libs=(), wide_also=False, no_overflow_check=False, mustfire=False, mm=24, fs=None):
+                 kf=None, per_entry=None, skip_entries=(), native_libs=(), wide_also=False, no_overflow_check=False, mustfire=False, mm=24, fs=None, inline=100000):
         s.prop = prop; s.tu = tu; s.defines = dict(defines or {}); s.entries = entries; s.narrow = narrow; s.unwind = unwind
         s.unwindset = dict(unwindset or {}); s.objbits = objbits; s.timeout = timeout; s.tier = tier; s.exceptions = exceptions
         s.stubs = list(stubs); s.heap = heap; s.slots = slots; s.backend = backend; s.cflags = list(cflags); s.rnd = rnd; s.nvec = nvec
         s.kf = dict(kf or {})            # entry name -> known-finding id (the entry is the finding's twin: expected to fail there)
         s.per_entry = dict(per_entry or {})  # entry -> dict(unwind=..., timeout=..., unwindset=..., objbits=...)
-        s.skip_entries = set(skip_entries); s.native_libs = list(native_libs); s.no_overflow_check = no_overflow_check; s.mustfire = mustfire; s.mm = mm; s.fs = fs
+        s.skip_entries = set(skip_entries); s.native_libs = list(native_libs); s.no_overflow_check = no_overflow_check; s.mustfire = mustfire; s.mm = mm; s.fs = fs; s.inline = inline
         s.name = name or (os.path.splitext(tu)[0] + ''.join('_%s%s' % (k, v) for k, v in sorted(s.defines.items())))
         s.name = re.sub(r'[^A-Za-z0-9_]', '_', s.name)
 
@@ -72,7 +72,7 @@ def build_ir(ctx, u):
     """clang -> .ll -> .c ; returns dict"""
     tu = os.path.join(HAR, u.tu)
     ll = os.path.join(ctx.wd, u.name + '.ll'); c = os.path.join(ctx.wd, u.name + '.c'); meta = os.path.join(ctx.wd, u.name + '.meta.json')
-    flags = CLANG_FLAGS + defs(u) + u.cflags
+    flags = CLANG_FLAGS + ['-mllvm', '-inline-threshold=%d' % u.inline] + defs(u) + u.cflags
     rc, out, err, t = sh(['clang++-14'] + flags + ['-Rpass=inline', '-S', '-emit-llvm', tu, '-o', ll])
     if rc != 0: return dict(ok=False, stage='clang', err=err[-4000:])
     inlined = sorted(set(re.findall(r"remark: '([^']+)' inlined into", err)))
@@ -89,7 +89,7 @@ def build_native(ctx, u, sanitize=False):
     """g++ build of the real wrapper TU and gcc build of the generated C (both linked with the shared driver)"""
     tu = os.path.join(HAR, u.tu)
     real = os.path.join(ctx.wd, u.name + ('.real_san' if sanitize else '.real'))
-    flags = ['-std=c++17', '-O1', '-g0', '-w', '-DVF_NATIVE', '-I' + os.path.join(REPO, 'include'), '-I' + ENG, '-I' + HAR] + defs(u)
+    flags = ['-std=c++17', '-O1', '-g0', '-w', '-DVF_NATIVE', '-I' + os.path.join(REPO, 'include'), '-I' + ENG, '-I' + HAR] + defs(u) + [f for f in u.cflags if f.startswith('-I') or f.startswith('-D')]
     if sanitize: flags += ['-g', '-fsanitize=address,undefined', '-fno-sanitize-recover=all', '-fno-omit-frame-pointer']
     rc, out, err, t = sh(['g++'] + flags + [tu, os.path.join(ENG, 'vf_native.cpp'), '-x', 'c', os.path.join(ENG, 'vf_driver.c'), '-o', real] + u.native_libs)
     if rc != 0: return dict(ok=False, stage='g++', err=err[-4000:])
@@ -97,7 +97,7 @@ def build_native(ctx, u, sanitize=False):
     if not sanitize:
         gen = os.path.join(ctx.wd, u.name + '.gen')
         rc, out, err, t2 = sh(['gcc', '-O1', '-w', '-fwrapv', '-fno-strict-aliasing', '-I' + ENG, '-DLL2C_HEAP_BYTES=%d' % u.heap, os.path.join(ctx.wd, u.name + '.c'),
-                               os.path.join(ENG, 'gen_native.c'), os.path.join(ENG, 'vf_driver.c'), '-o', gen])
+                               os.path.join(ENG, 'gen_native.c'), os.path.join(ENG, 'vf_driver.c'), '-o', gen] + u.native_libs)
         if rc != 0: return dict(ok=False, stage='gcc-generated-C', err=err[-4000:])
         res['gen'] = gen; res['t'] += t2
     return res
